@@ -50,6 +50,30 @@ BOUNDARY = [
 ]
 
 
+def stress_programs():
+    """stack pressure at the stack budget of the quantifier (call depth 62): many calls / many function calls in operands /
+    deep temporaries in the body of the procedure that recurses.  A frame that is larger than it has to be (outgoing areas or
+    temporaries not reused) stays unnoticed in small programs and drives the stack into the image here."""
+    calls = "; ".join(["q(n, 1, 2, 3, 4)"] * 600)
+    p1 = ("proc q(val a, val b, val c, val d, val e) is skip "
+          f"proc walk(val n) is {{ {calls}; if n > 0 then walk(n - 1) else skip }} proc main() is walk(61)")
+    asg = "; ".join(["x := g(n, x, 1, 2)"] * 500)
+    p2 = ("func g(val a, val b, val c, val d) is return b + 1 "
+          f"func walk(val n) is var x; {{ x := 0; {asg}; if n = 0 then return x else return walk(n - 1) }} proc main() is 0(walk(61) - 500)")
+    e = "n"
+    for k in range(40):
+        e = f"(1 + g({e}, {k}))" if k % 2 else f"g(1 + {e}, {k})"
+    tmp = "; ".join([f"x := {e}"] * 12)
+    p3 = ("func g(val a, val b) is return a "
+          f"func walk(val n) is var x; {{ {tmp}; if n = 0 then return 0 else return walk(n - 1) }} proc main() is 0(walk(61))")
+    sys = "; ".join(["1(n, 256)"] * 400)
+    p4 = f"proc walk(val n) is {{ {sys}; if n > 0 then walk(n - 1) else skip }} proc main() is walk(61)"
+    return [p1, p2, p3, p4]
+
+
+STRESS_FUEL = 4000000
+
+
 def parse_acc(o):
     f = o.split(" ")
     if len(f) < 3 or f[0] != "acc":
@@ -89,7 +113,7 @@ def verdict(ref, acc):
 
 def evaluate(h, drv, cases):
     sexps = [G.to_sexp(p) for p, _, _ in cases]
-    refs = c01.sem_drive(drv, [c01.sem_line(sx, d, f) for sx, (_, d, f) in zip(sexps, cases)])
+    refs = c01.sem_drive(drv, [c01.sem_line(sx, d, f, STRESS_FUEL if len(sx) > 20000 else None) for sx, (_, d, f) in zip(sexps, cases)])
     idx = [i for i, r in enumerate(refs) if r.startswith("ok ")]
     accs = c01.real_drive(h, [c01.real_line(G.to_source(cases[i][0]), cases[i][1], cases[i][2], cmd="acc")
                               for i in idx]) if idx else []
@@ -161,6 +185,8 @@ def run(tier, seed, replay=None):
         prog = xparse.parse(src)
         for data in (b"", b"az"):
             cases.append((prog, data, "-"))
+    for src in stress_programs():
+        cases.append((xparse.parse(src), b"", "-"))
     nb = len(cases)
     feats = Counter()
     for i in range(nprog):
@@ -215,29 +241,13 @@ def run(tier, seed, replay=None):
         rep.violation("proof", {"broken": problems}, no_input=not bad_cases)
 
     # the static theorems are about the Lean model of the compiler: its tie to the real xcmp (five stages, byte for byte)
-    model_corr = {}
-    try:
-        import subprocess, sys as _sys
-        outp = os.path.join(C.BUILD, "C08-c01model.json")
-        mr = subprocess.run([_sys.executable, os.path.join(C.ROOT, "runner", "c01model.py"), "--tier", tier],
-                            capture_output=True, text=True, timeout=3000,
-                            env=dict(os.environ, VERIF_SEED=str(seed + 1000), C01MODEL_OUT=outp))
-        if os.path.exists(outp):
-            model_corr = json.load(open(outp))
-            model_corr.pop("first_differences", None); model_corr.pop("generator_features", None); model_corr.pop("constructs", None)
-        model_corr["exit"] = mr.returncode
-        if mr.returncode != 0:
-            rep.violation("model-correspondence", {"broken": "Xcmp compiler model vs real xcmp differ (runner/c01model.py); the C08_static_* "
-                                                   "theorems are about that model", "detail": (mr.stdout + mr.stderr)[-3000:]},
-                          no_input=not bad_cases)
-    except Exception as e:   # pragma: no cover
-        rep.violation("model-correspondence", {"broken": "c01model.py could not run", "detail": str(e)}, no_input=not bad_cases)
+    model_corr = C.compiler_model_tie(rep, PID, tier, seed + 1000, bool(bad_cases))
 
     rep.coverage.update({
         "explanation": "dynamic check of the C08 clauses on real xcmp binaries executed instruction by instruction on the real hexsim "
                        "with an access observer; plus the static frame theorems C08_static_* / C08_store_discipline (Properties/C08.lean) about the "
                        "Lean model of the code generator, which is compared with the real xcmp stage by stage",
-        "evaluations": ndef, "generated_cases": len(cases), "boundary_cases": nb, "programs": nprog + len(BOUNDARY),
+        "evaluations": ndef, "generated_cases": len(cases), "boundary_cases": nb, "stack_pressure_programs": len(stress_programs()), "programs": nprog + len(BOUNDARY) + len(stress_programs()),
         "distinct_nontrivial": len({(G.to_sexp(p), d, f) for (p, d, f), (ref, acc) in zip(cases, results)
                                     if ref.startswith("ok ") and acc and (parse_acc(acc) or {}).get("status") == "ok"}),
         "rule": "C01 generator + boundary programs, filtered by X.run definedness; each case is a complete single-stepped run whose "
